@@ -781,6 +781,24 @@ class Interp(ExprMixin):
         """X[a:b:-1] (a, b integer constants or absent) as (range(a', b', -1), X): a' = a (len + a when negative, len - 1 when
         absent), b' = b (len + b when negative, -1 when absent)"""
         t = it if isinstance(it, tuple) else None
+        if t is not None and len(t) == 4 and t[:2] == ("call", "reversed") and len(t[2]) == 1 and not t[3]:
+            # reversed(X[a:b]) (a, b integer constants or absent) walks the positions b' - 1 down to a'
+            u = t[2][0]
+            if isinstance(u, tuple) and len(u) == 3 and u[0] == "idx" and isinstance(u[2], tuple) and u[2] and u[2][0] == "slice" \
+                    and u[2][3] in (NONE, K(1)) and isinstance(u[1], tuple) and u[1][0] not in ("call", "mcall"):
+                n_ = ("call", "len", (u[1],), ())
+
+                def bound(v, default):
+                    if v == NONE:
+                        return default
+                    if is_const(v) and isinstance(v[1], int):
+                        return v if v[1] >= 0 else app("-", n_, K(-v[1]))
+                    return None
+                a_, b_ = bound(u[2][1], K(0)), bound(u[2][2], n_)
+                if a_ is not None and b_ is not None:
+                    from .decide import canon_arith
+                    return ("range", canon_arith(app("-", b_, K(1))), canon_arith(app("-", a_, K(1))), K(-1)), u[1]
+            return None
         if t is None or len(t) != 3 or t[0] != "idx" or not (isinstance(t[2], tuple) and t[2] and t[2][0] == "slice"):
             return None
         lo, hi, st_ = t[2][1], t[2][2], t[2][3]
@@ -974,6 +992,8 @@ class Interp(ExprMixin):
         if isinstance(f, Closure):
             return self.call_closure(f, args, kwargs, node)
         ft = self.to_term(f)
+        if ft[0] == "closure" and ft in getattr(self, "_closure_of_term", {}):
+            return self.call_closure(self._closure_of_term[ft], args, kwargs, node)
         if ft[0] == "phi" and len(ft) == 4 and any(isinstance(x, tuple) and x and x[0] in ("attr", "phi", "boundmethod") for x in (ft[2], ft[3])):
             # a method chosen by a conditional (getattr(obj, name) with a name read from a table): each alternative is called
             # under its condition
@@ -1114,6 +1134,8 @@ class Interp(ExprMixin):
                 if op in ("<=", "<", ">=", ">", "==", "!="):
                     return self.compare(op, self.to_term(args[0]), self.to_term(args[1]))
                 return self.binop(op, args[0], args[1], node)
+            if fn == "pos" and len(args) == 1:
+                return args[0]
             if fn == "neg" and len(args) == 1:
                 return app("neg", self.to_term(args[0]))
             if fn == "not_" and len(args) == 1:
